@@ -87,6 +87,22 @@ FAULTS.update({
 })
 
 
+# ---- wave 5: extreme-scale classes, narrow band-pass, detrending over very long / very short durations
+FAULTS.update({
+ # zero tests done through squares: a tiny record (|x| < 1e-162) squares to 0
+ 'a3:runavg-zero-test-by-square': [(S, "        mot = self.values\n        averaged = np.zeros", "        mot = self.values\n        if np.sum(np.asarray(mot, dtype=float) ** 2) == 0:\n            return\n        averaged = np.zeros")],
+ 'a3:butter-zero-test-by-square': [(S, "        mote = self.values\n        org_len = len(mote)", "        mote = self.values\n        if np.dot(mote, mote) == 0:\n            return\n        org_len = len(mote)")],
+ 'a3:detrend-fn-variance-test': [(G, "    x = np.linspace(0, 1.0, len(values))\n    cofs = np.polyfit(x, values, poly_fit)", "    if np.var(np.asarray(values, dtype=float)) == 0 and len(values) > 1 and np.ptp(values) > 0:\n        return np.asarray(values) - np.mean(values)\n    x = np.linspace(0, 1.0, len(values))\n    cofs = np.polyfit(x, values, poly_fit)")],
+ 'a3:add_series-skip-zero-energy': [(S, "        if len(series) == self.npts:\n", "        if len(series) == self.npts and float(np.dot(np.asarray(series, dtype=float), np.asarray(series, dtype=float))) == 0:\n            return\n        if len(series) == self.npts:\n")],
+ # huge records: normalising by the sum of squares overflows
+ 'a3:runavg-rms-normalised': [(S, "        self.reset_values(averaged)\n\n\nclass AccSignal", "        rms = np.sqrt(np.mean(np.asarray(mot, dtype=float) ** 2))\n        if np.isfinite(rms) is False or not np.isfinite(rms):\n            averaged = averaged * 0\n        self.reset_values(averaged)\n\n\nclass AccSignal")],
+ # narrow band-pass (relative bandwidth < 10 %, order 3-4): transfer-function form when the lower corner is >= 0.01 Nyquist
+ 'a3:tf-form-above-0.01-nyquist': [(S, "        mote = sosfiltfilt(sos, mote, padlen=3 * n_coef)  # same padding as filtfilt(b, a)", "        if np.min(wp) < 0.01:\n            mote = sosfiltfilt(sos, mote, padlen=3 * n_coef)\n        else:\n            from scipy.signal import filtfilt\n            b_, a_ = butter(filter_order, wp, btype=filter_type)\n            mote = filtfilt(b_, a_, mote)")],
+ # detrending in physical time with a raw least-squares fit: degree 3-4 over > 1000 s or < 1 ms
+ 'a3:detrend-raw-lstsq-in-time': [(S, "        x = np.linspace(0, 1.0, self.npts)\n        cofs = np.polyfit(x, self.values, poly_fit)", "        x = np.arange(self.npts) * self.dt\n        cofs = np.linalg.lstsq(np.vander(x, poly_fit + 1), self.values, rcond=None)[0]")],
+})
+
+
 def restore():
     for f in (S,G): shutil.copy(SRC+f, DST+f)
 def apply(edits):
